@@ -393,6 +393,7 @@ def run(eng: Engine, ck: Check):
     from .c11 import race_attempts_rule
     race_attempts_rule(eng, ck, 'R-C06-CANCEL-ALL')
 
+    registered_handle_rule(eng, ck)
     # ---- R-C06-ACCEPTED: a negotiation started from a MESSAGE HANDLER acts only if the state machine accepted it
     # The scheduler starts its attempts synchronously for transfers it has just selected; a message handler (`_on_peer_transfer_request`)
     # starts one whenever the message arrives -- also while abort() / pause() holds the state lock and is still awaiting the tasks it
@@ -423,3 +424,48 @@ def run(eng: Engine, ck: Check):
               if unguarded else '', construct=f'{f.name} proceeds only if accepted')
     ck.floor('R-C06-ACCEPTED', n_acc, 1)
 
+
+
+def registered_handle_rule(eng: Engine, ck: Check):
+    """R-C06-HANDLE: abort / pause / remove act on the object they are given, after an EQUALITY test against the registry (`transfer not in
+    self.transfers`; Transfer.__eq__ compares user, path and direction).  An equal but detached twin passes that test: the operation then
+    runs on the twin (no tasks, own lock) and `list.remove` drops the registered one by equality, its tasks still running.  So the public
+    entry point that hands out transfers hands out THE REGISTERED object: download() returns, and operates on, what `add()` returned --
+    add() answers with the stored transfer when an equal one exists."""
+    dl = eng.func(TM, 'TransferManager.download')
+    ck.visited(dl)
+    adds = [x for x in calls_on(dl.node, 'add') if unparse(x.func.value) == 'self']
+    ck.floor('R-C06-HANDLE.add', len(adds), 1)
+    rets = [r for r in walk_local(dl.node) if isinstance(r, ast.Return) and r.value is not None]
+    ops = [x for x in calls_in(dl.node) if isinstance(x.func, ast.Attribute) and x.func.attr in ('queue', 'pause', 'abort') and mentions_attr(x.func.value, 'state')]
+
+    def is_add(v: ast.AST) -> bool:
+        return any(isinstance(y, ast.Call) and call_name(y) == 'add' and isinstance(y.func, ast.Attribute) and unparse(y.func.value) == 'self' for y in ast.walk(v))
+
+    def from_add(e: ast.AST) -> bool:
+        ex = expand_aliases(dl, e)
+        if is_add(ex):
+            return True
+        # a name bound more than once (`t = Transfer(..); t = await self.add(t)`): what counts is the binding that reaches the use -- the last one
+        # among the statements of the function body in front of it, provided it is unconditional
+        root = next((n_ for n_ in ast.walk(e) if isinstance(n_, ast.Name)), None)
+        if root is None:
+            return False
+        top = dl.node.body
+        here = e
+        while getattr(here, '_parent', None) is not None and here._parent is not dl.node:
+            here = here._parent
+        if here not in top:
+            return False
+        last = None
+        for st in top[:top.index(here)]:
+            if isinstance(st, ast.Assign) and any(isinstance(t_, ast.Name) and t_.id == root.id for t_ in st.targets):
+                last = st
+            elif any(isinstance(n_, ast.Name) and n_.id == root.id and isinstance(n_.ctx, ast.Store) for n_ in ast.walk(st)):
+                last = None
+        return last is not None and is_add(last.value)
+    bad = [f'returns `{unparse(r.value)}`' for r in rets if not from_add(r.value)] + \
+        [f'`{unparse(x)[:50]}`' for x in ops if not from_add(x.func.value)]
+    ck.ob('R-C06-HANDLE', dl, dl.node, 'download() queues / pauses and returns the transfer that add() handed back (the registered one when the file was already known)',
+          bool(rets) and not bad, f'{bad}: for a file that is already in the manager this is a detached twin; abort / pause through it return success and touch nothing, '
+          'remove() drops the registered transfer by equality while its negotiation goes on', construct='download returns the registered transfer')
